@@ -81,6 +81,9 @@ type Env struct {
 	BlockHookSaw    []string
 	BlockHookPause  int // block hook returns ErrPaused at this block index (1-based), 0 never
 	BlockHookErrAt  int
+	// OnGoOnline, when set, runs on the executor's goroutine right before the
+	// request's loader is switched online (first local miss)
+	OnGoOnline func()
 	// BlockHookDo, when set, runs inside every incoming-block hook call (on the
 	// executor's goroutine) before the hook's verdict is taken: a hook that is
 	// slow, or that itself cancels / pauses
@@ -105,6 +108,37 @@ type Env struct {
 type slowManager struct {
 	*requestmanager.RequestManager
 	e *Env
+}
+
+// GetRequestTask hands the executor the real task, with its loader wrapped so
+// that the harness can act at the moment the executor goes online.
+func (m *slowManager) GetRequestTask(p peer.ID, task *peertask.Task, out chan executor.RequestTask) {
+	if m.e.OnGoOnline == nil {
+		m.RequestManager.GetRequestTask(p, task, out)
+		return
+	}
+	in := make(chan executor.RequestTask, 1)
+	m.RequestManager.GetRequestTask(p, task, in)
+	// (the executor itself receives from out: forward from a goroutine)
+	go func() {
+		rt := <-in
+		if !rt.Empty {
+			rt.ReconciledLoader = &slowLoader{ReconciledLoader: rt.ReconciledLoader, e: m.e}
+		}
+		out <- rt
+	}()
+}
+
+type slowLoader struct {
+	executor.ReconciledLoader
+	e *Env
+}
+
+func (l *slowLoader) SetRemoteOnline(online bool) {
+	if online && l.e.OnGoOnline != nil {
+		l.e.OnGoOnline()
+	}
+	l.ReconciledLoader.SetRemoteOnline(online)
 }
 
 func (m *slowManager) ReleaseRequestTask(p peer.ID, task *peertask.Task, err error) {
